@@ -7,6 +7,7 @@
 
 mod common;
 mod c04;
+mod c08;
 
 use common::{Out, Rng, Tier};
 
@@ -24,6 +25,7 @@ fn main() {
     let rule = match args[1].as_str() {
         "C04" => c04::run_c04(&mut out, &mut rng, tier),
         "C13" => c04::run_c13(&mut out, &mut rng, tier),
+        "C08" => c08::run_c08(&mut out, &mut rng, tier),
         other => {
             eprintln!("unknown property {other}");
             std::process::exit(2);
